@@ -128,6 +128,22 @@ func mergeClass(site string) string {
 // exploreMerge runs the merge of files in the given order under every map
 // schedule within the budget.
 func exploreMerge(ctx *core.Ctx, files []renderedFile, order []int, schema string, budget int, visit func(o *mergeObs, choices []int) bool) rt.Stats {
+	// large file sets (the size sweeps): a map of n keys has ~n^2/2 single deviations per site; sets of 13 to 24 declarations
+	// keep single deviations, larger ones run under the default schedule (their subject is size, and the file orders)
+	decls := 0
+	for _, f := range files {
+		if f.spec.M != nil {
+			decls += len(f.spec.M.Types) + len(f.spec.M.Conds)
+			for _, t := range f.spec.M.Types {
+				decls += len(t.Rels)
+			}
+		}
+	}
+	if decls > 24 {
+		budget = 0
+	} else if decls > 12 && budget > 1 {
+		budget = 1
+	}
 	var o *mergeObs
 	return rt.Explore(rt.Config{Class: mergeClass, Budget: map[string]int{"merge": budget, "other": 0}, MaxExec: 4000, Stop: ctx.Expired},
 		func() { o = runMerge(files, order, schema) },
@@ -264,7 +280,7 @@ func c07Check(ctx *core.Ctx, cs *mergeCase, o *mergeObs, want *ref.MergeOutcome)
 
 func c07Set(ctx *core.Ctx, i int, fs gen.FileSet, thorough bool) {
 	files := renderFiles(fs.Files, nil, nil)
-	for _, order := range perms(len(fs.Files)) {
+	for _, order := range fileOrders(len(fs.Files)) {
 		versions := []string{schemaVersions[i%4]}
 		if i%16 == 0 {
 			versions = schemaVersions
@@ -345,6 +361,11 @@ func forMergeSets(thorough bool, want func(i int) bool, f func(i int, fs gen.Fil
 	base += gen.FileSetsEach(3, 1, false, shift(want), emit())
 	base += gen.ManyExtendersEach(shift(want), emit())
 	base += gen.TwoTargetsEach(shift(want), emit())
+	msizes := []int{5, 13, 33}
+	if thorough {
+		msizes = gen.SweepSizesSmall
+	}
+	base += gen.SweepFileSetsEach(msizes, shift(want), emit())
 	if thorough {
 		base += gen.FileSetsCoreEach(3, 2, shift(want), emit())
 		base += gen.FileSetsCoreEach(2, 3, shift(want), emit())
@@ -377,7 +398,7 @@ func init() {
 		ID: "C07",
 		Rule: "module file sets: 2 files x <= 2 declarations and 3 x <= 1 (quick; thorough adds 3 x <= 2 and 2 x <= 3 over the conflict-relevant sub-menu of 7 declarations) from a menu of 13 declarations " +
 			"(types with/without relations, extensions with fresh / clashing / no relations, extension of an undefined type, conditions), plus sets completed by one of 7 malformed members " +
-			"(model-header files with/without relations/conditions, syntax errors, module without name, type extended twice), plus the many-extenders family (four files: t1 defined without relations / with a relation / defined and extended in one file, and three files that each extend it with x, y, x and y, nothing, or mind their own type: 375 sets) and the two-targets family (one file extending two different types in either order, each with a relation the other type has, a fresh one, or its own; base types in one file or two; optionally one more extender: 108 sets) x every permutation of the file list x schema versions " +
+			"(model-header files with/without relations/conditions, syntax errors, module without name, type extended twice), plus the many-extenders family (four files: t1 defined without relations / with a relation / defined and extended in one file, and three files that each extend it with x, y, x and y, nothing, or mind their own type: 375 sets) and the two-targets family (one file extending two different types in either order, each with a relation the other type has, a fresh one, or its own; base types in one file or two; optionally one more extender: 108 sets) and size sweeps (n = 5, 13, 33 quick: n files extending one type with and without a conflict between a middle and a late one; one extension with n relations and a later file clashing with the first / middle / last / none; n extend blocks in one file; n types and n conditions with the middle one defined again; file lists longer than four in five orders instead of all; schedules: single deviations up to 24 declarations, default schedule above) x every permutation of the file list x schema versions " +
 			"x map schedules of the merger's six map-iteration sites (budget 1 quick / 2 thorough); each set also with its files rendered in another uniform layout style (blank lines, comments, tabs, CRLF, extra spaces; rotating, all styles for every 16th set). Oracle: reference merge over the declarations the generator wrote. " +
 			"states = distinct outcomes (models or error lists), non-trivial = distinct file sets",
 		Assume: []string{
@@ -406,3 +427,15 @@ func init() {
 }
 
 var _ = sort.Strings
+
+// fileOrders: every order of up to four files; for longer lists the given order, its reversal, a rotation, a scrambled order
+// and the given order with its last two files exchanged.
+func fileOrders(n int) [][]int {
+	if n <= 4 {
+		return perms(n)
+	}
+	out := typePerms(n)
+	sw := identity(n)
+	sw[n-1], sw[n-2] = sw[n-2], sw[n-1]
+	return append(out, sw)
+}
